@@ -65,6 +65,8 @@ Settle(M, c, fuel) ==
                 LET p == FirstTrue(M, s.br, 1, c.d, 0) IN
                 IF p.s # "ok" THEN [c EXCEPT !.st = p.s]
                 ELSE Settle(M, [c EXCEPT !.K = Push(FS(IF p.j = 0 THEN s.eb ELSE s.br[p.j].b), K1)], fuel - 1)
+           \* a match whose only word is the empty one (/x{0,0}/) needs no symbol: it is over at once
+           [] s.t = "match" /\ Finished({s.r}) -> Settle(M, [c EXCEPT !.K = K1], fuel - 1)
            [] OTHER -> c
     ELSE IF top.f = "L" THEN Settle(M, [c EXCEPT !.K = Push(FS(top.b), c.K)], fuel - 1)     \* next iteration
     ELSE IF top.f \in {"T", "E"} THEN Settle(M, [c EXCEPT !.K = rest], fuel - 1)             \* block completed
